@@ -19,7 +19,15 @@ class VariableBoundEqPropagator(VariableBoundPropagator):
             # Domain of the target shrinks to be equal to eq_e
             eq_v = int(self.eq_e.val())
             range_l = self.target.domain.range_l
-            if len(range_l) >= 1:
+            in_domain = False
+            for r in range_l:
+                if r[0] <= eq_v and eq_v <= r[1]:
+                    in_domain = True
+                    break
+            if not in_domain:
+                # Never empty the domain (see VariableBoundMaxPropagator)
+                pass
+            elif len(range_l) >= 1:
                 if len(range_l) > 1 or not (range_l[0][0] == eq_v and range_l[0][1] == eq_v):
                     should_propagate = True
                     self.target.domain.range_l = [[eq_v, eq_v]]
